@@ -195,6 +195,14 @@ def _as_expr(stmts: List[ast.stmt]) -> Optional[ast.AST]:
     s0 = stmts[0]
     if isinstance(s0, ast.Return) and s0.value is not None:
         return s0.value
+    # a local that only names an intermediate value:  prefix = key[:-2]; return e == prefix or e.startswith(prefix + ".")
+    if isinstance(s0, ast.Assign) and len(s0.targets) == 1 and isinstance(s0.targets[0], ast.Name) and len(stmts) > 1 and \
+            not any(isinstance(y, (ast.Call, ast.Await, ast.Yield, ast.Lambda)) and not (isinstance(y, ast.Call) and isinstance(y.func, ast.Name) and y.func.id in ("len", "str", "tuple")) for y in ast.walk(s0.value)):
+        nm = s0.targets[0].id
+        rest = [copy.deepcopy(x) for x in stmts[1:]]
+        if not any(isinstance(y, ast.Name) and y.id == nm and isinstance(y.ctx, ast.Store) for x in rest for y in ast.walk(x)):
+            sub = _Subst({nm: s0.value}, {}, None)
+            return _as_expr([sub.visit(x) for x in rest])
     if isinstance(s0, ast.If):
         a = _as_expr(list(s0.body))
         b = _as_expr(list(s0.orelse) if s0.orelse else stmts[1:])
